@@ -158,3 +158,69 @@ class Killer(Process):
                 'topology': {'par': {'vars': ('vars',)}},
                 'initial_state': {}})
         return {'agents': {'_divide': {'mother': target, 'daughters': daughters}}}
+
+
+# ---------------------------------------------------------------- dynamic-structure probes (C10)
+
+DYN_CTX = {}      # key -> context object (kept out of process parameters so deepcopy stays small)
+
+
+class CellProc(Process):
+    """a process inside a compartment: +1 on ('vars','x') every `ts`; logs each invocation"""
+    defaults = {'ts': 1, 'id': '', 'ctx_key': None}
+
+    def ports_schema(self):
+        return {'vars': {'x': {'_default': 0, '_emit': True}}}
+
+    def calculate_timestep(self, states):
+        return self.parameters['ts']
+
+    def next_update(self, timestep, states):
+        ctx = DYN_CTX.get(self.parameters['ctx_key'])
+        if ctx is not None:
+            ctx.log.append({'e': 'invoke', 'id': self.parameters['id'], 'gt': ctx.now(), 'ts': timestep,
+                            'start': ctx.start_of(self)})
+        return {'vars': {'x': 1}}
+
+
+class CellStep(Step):
+    """a step inside a compartment; logs each run"""
+    defaults = {'id': '', 'ctx_key': None}
+
+    def ports_schema(self):
+        return {'vars': {'x': {'_default': 0, '_emit': True}}}
+
+    def next_update(self, timestep, states):
+        ctx = DYN_CTX.get(self.parameters['ctx_key'])
+        if ctx is not None:
+            ctx.log.append({'e': 'step', 'id': self.parameters['id'], 't': ctx.now(), 'ts': timestep})
+        return {}
+
+
+class Director(Process):
+    """issues the scripted structural updates, one per invocation (timestep 1)"""
+    defaults = {'ctx_key': None, 'script_key': None}
+
+    def __init__(self, parameters=None):
+        super().__init__(parameters)
+        self.k = 0
+
+    def ports_schema(self):
+        # a non-empty sub-schema: a glob port with an empty one and no children leaves the
+        # store a leaf (noted edge F20), on which structural updates raise
+        return {'agents': {'*': {'marker': {'_default': 0}}}, 'agents2': {'*': {'marker': {'_default': 0}}},
+                'vars': {'x': {'_default': 0, '_emit': True}}}
+
+    def calculate_timestep(self, states):
+        return 1
+
+    def next_update(self, timestep, states):
+        ctx = DYN_CTX.get(self.parameters['ctx_key'])
+        script = ctx.script if ctx is not None else []
+        k = self.k
+        self.k += 1
+        if k < len(script):
+            if ctx is not None:
+                ctx.log.append({'e': 'issue', 'k': k, 'gt': ctx.now()})
+            return script[k]
+        return {}
